@@ -100,7 +100,7 @@ Definition lnode_inv (po : order) (stops : id -> stopfn) (st : store) (ur : unre
   exists (sv : id -> nat) (sx : id -> val) (U : id -> bool),
     dv = map sv (enum po n sn) /\ flags_of ur n = map U (enum po n sn) /\
     sn_cache sn = sn_proc sn (cut (stops n) (map (map sx) (ids_of sn))) /\
-    (forall d, In d (deps_ids sn) -> U d = false -> sv d = verT st d -> sx d = outT st d) /\
+    (forall d, In d (deps_ids sn) -> U d = false -> sv d <= verT st d /\ (sv d = verT st d -> sx d = outT st d)) /\
     (forall j l d, j < length (cut (stops n) (map (map sx) (ids_of sn))) -> nth_error (ids_of sn) j = Some l -> In d l -> U d = false).
 Definition LInv (po : order) (stops : id -> stopfn) (st : store) (ur : unread_tab) : Prop :=
   forall n sn, nth_error st n = Some (Struct sn) -> lnode_inv po stops st ur n sn.
@@ -142,8 +142,67 @@ Proof.
   2:{ intros l Hl. apply map_opt_ext_some. intros d Hd. apply Hev. unfold deps_ids. apply in_concat. eauto. }
   simpl. f_equal. rewrite (LP _ _ En). symmetry.
   eapply (skip_unread_sound po stops f st ur n sn dv sv sx Ev U); eauto.
+  { intros d Hd Hu. apply (proj2 (Hval d Hd Hu)). }
   intros d Hd Hs. destruct (map_opt_some_in _ _ _ E d Hd) as (hd & Ehd & _).
   pose proof (IH st ur d hd I LP Ehd Hs) as He. fold g in He. rewrite (Hev d Hd) in He. injection He as ->. reflexivity.
+Qed.
+
+(* ---- the record invariant holds initially and is preserved by every edit (parameter update, re-wiring);
+        what is NOT proved is its preservation by [lvalue] ---- *)
+Lemma linit_LInv po stops ds : LInv po stops (fst (linit ds)) (snd (linit ds)).
+Proof.
+  intros n sn En. simpl in En. rewrite nth_error_map in En.
+  destruct (nth_error ds n) as [[v|fs proc]|]; try discriminate. injection En as <-.
+  intros dv Hdv. discriminate.
+Qed.
+
+Lemma lnode_inv_mono po stops st st' ur n sn :
+  (forall m, verT st m <= verT st' m /\ (verT st m = verT st' m -> outT st' m = outT st m)) ->
+  lnode_inv po stops st ur n sn -> lnode_inv po stops st' ur n sn.
+Proof.
+  intros V H dv Hd Hc. destruct (H dv Hd Hc) as (sv & sx & U & A & B & C & M & K).
+  exists sv, sx, U. repeat split; auto; destruct (M d H0 H1) as [L Q], (V d) as [L' Q'].
+  - lia.
+  - intros E'. rewrite Q', Q; auto; lia.
+Qed.
+
+Lemma ledit_LInv po stops st ur o st' ur' : is_read o = false ->
+  lstep po stops (st, ur) o = Some (st', ur') -> LInv po stops st ur -> LInv po stops st' ur'.
+Proof.
+  intros Hr H I. destruct o as [n v | n input src | n input | n]; try discriminate; cbn [lstep] in H;
+    apply bind_some in H as [[st1 r] [E H]]; injection H as <- <-; cbn [step_store] in E.
+  - (* SetParam *)
+    destruct (nth_error st n) as [[ver w sets|]|] eqn:En; try discriminate. injection E as <- _.
+    intros k snk Ek. destruct (Nat.eq_dec n k) as [<- | Hne].
+    + rewrite nth_error_set_nth_eq in Ek by (eapply nth_error_some_lt; eauto). discriminate.
+    + rewrite nth_error_set_nth_neq in Ek; auto. eapply lnode_inv_mono; [|apply (I _ _ Ek)].
+      intros m. destruct (Nat.eq_dec n m) as [<- | Hnm].
+      * unfold verT, ver_of. rewrite nth_error_set_nth_eq by (eapply nth_error_some_lt; eauto).
+        rewrite En. split; [lia|]. intros; lia.
+      * rewrite verT_set_nth_neq, outT_set_nth_neq; auto.
+  - (* Connect *)
+    destruct (src <? length st); [|discriminate]. apply bind_some in E as [a [E H]].
+    destruct (acyclic_b (graph_of a)); [|discriminate]. injection H as <- _.
+    destruct (rewire_inv _ _ _ _ _ E) as (sn & ps & En & Hps & ->).
+    intros k snk Ek. destruct (Nat.eq_dec n k) as [<- | Hne].
+    + rewrite nth_error_set_nth_eq in Ek by (eapply nth_error_some_lt; eauto). injection Ek as <-.
+      intros dv _ Hd. discriminate.
+    + rewrite nth_error_set_nth_neq in Ek; auto. eapply lnode_inv_mono; [|apply (I _ _ Ek)].
+      intros m. destruct (Nat.eq_dec n m) as [<- | Hnm].
+      * unfold verT, ver_of, outT. rewrite nth_error_set_nth_eq by (eapply nth_error_some_lt; eauto).
+        rewrite En. simpl. split; auto.
+      * rewrite verT_set_nth_neq, outT_set_nth_neq; auto.
+  - (* Disconnect *)
+    apply bind_some in E as [a [E H]]. injection H as <- _.
+    destruct (rewire_inv _ _ _ _ _ E) as (sn & ps & En & Hps & ->).
+    intros k snk Ek. destruct (Nat.eq_dec n k) as [<- | Hne].
+    + rewrite nth_error_set_nth_eq in Ek by (eapply nth_error_some_lt; eauto). injection Ek as <-.
+      intros dv _ Hd. discriminate.
+    + rewrite nth_error_set_nth_neq in Ek; auto. eapply lnode_inv_mono; [|apply (I _ _ Ek)].
+      intros m. destruct (Nat.eq_dec n m) as [<- | Hnm].
+      * unfold verT, ver_of, outT. rewrite nth_error_set_nth_eq by (eapply nth_error_some_lt; eauto).
+        rewrite En. simpl. split; auto.
+      * rewrite verT_set_nth_neq, outT_set_nth_neq; auto.
 Qed.
 
 (* ---- witness: nodes 0 gate (parameter, 0 = "stop"), 1 parameter, 2 = U(1), 3 = L(Gate: 0, A: 2) ---- *)
